@@ -100,11 +100,30 @@ func tlv(id []byte, content []byte) []byte {
 	return append(out, content...)
 }
 
+// clsBits is the class the DECODER expects for a tagged field, by encoding/asn1's rules (the reference): on an
+// explicit tag only `application` counts (else context-specific; `private` is ignored), on an implicit tag
+// `private` wins over `application`.
 func clsBits(td *TD) byte {
-	switch td.Cls {
-	case "application":
+	app, priv := strings.Contains(td.Cls, "application"), strings.Contains(td.Cls, "private")
+	switch {
+	case td.Expl && app:
 		return 0x40
-	case "private":
+	case td.Expl:
+		return 0x80
+	case priv:
+		return 0xc0
+	case app:
+		return 0x40
+	}
+	return 0x80
+}
+
+// marshalClsBits is the class Marshal writes: application, else private, else context-specific.
+func marshalClsBits(td *TD) byte {
+	switch {
+	case strings.Contains(td.Cls, "application"):
+		return 0x40
+	case strings.Contains(td.Cls, "private"):
 		return 0xc0
 	}
 	return 0x80
@@ -244,6 +263,11 @@ func (c *encCtx) field(td *TD, v *Val, m mctx) ([]byte, reflect.Value) {
 		c.cl("tag:implicit")
 	default:
 		out = tlv(ident(0, cons, utag, false), body)
+	}
+	if tagged(td) && clsBits(td) != marshalClsBits(td) {
+		// decoder and encoder of encoding/asn1 disagree about the class for this option combination: not round-trippable
+		c.nonRT = true
+		c.cl("class:decoder-encoder-asymmetry")
 	}
 	if tagged(td) {
 		if td.Cls != "" {
